@@ -77,7 +77,7 @@ def sk_walk(sk, f, parent=None):
         sk_walk(c, f, sk)
 
 
-def closure_problems(sk, prefix, pt):
+def closure_problems(sk, prefix, pt, src=''):
     """-> list of (class or None, text)"""
     ids = {}
     refs = []
@@ -105,7 +105,9 @@ def closure_problems(sk, prefix, pt):
         if n == 1:
             continue
         cls = None
-        if tag == 'feImage' and u == pre:
+        if tag == 'feImage' and u == pre and re.search(r'<feImage\b[^>]*href\s*=\s*["\']#', src):
+            # F10 is about an feImage that references an ELEMENT which ends up without an id (feImage -> use); an feImage
+            # whose href is an image (data URL / file) always gets a generated image id
             cls = 'feimage-empty-href'
         elif n == 0 and tag == 'tspan' and a in ('fill', 'stroke') and pt:
             cls = 'text-span-paint'
@@ -167,6 +169,8 @@ class CoqSkel:
             a.append('AXmlns')
             if xlink:
                 a.append('AXlink')
+        if tag in FE_BY_TAG:
+            a.append('ASub %d' % sum(bit for bit, k in zip((1, 2, 4, 8), ('x', 'y', 'width', 'height')) if k in at))
         if 'id' in at:
             a.append('AId %d %d' % self.split(at['id']))
         if 'in' in at:
@@ -299,7 +303,7 @@ def classify(r, w, src=''):
         return out
     if r['root'] != ['svg', 'http://www.w3.org/2000/svg']:
         out.append((None, "root element is %r" % (r['root'],)))
-    cp = closure_problems(r['skeleton'], prefix, pt)
+    cp = closure_problems(r['skeleton'], prefix, pt, src)
     nested = None
     for cls, text in cp:
         if cls is None:
@@ -331,27 +335,41 @@ def classify(r, w, src=''):
             if e[0] in ('clipPath', 'mask') and not e[2]:
                 empty_def.append(e[0])
         sk_walk(r['skeleton'], find_empty)
+        # every component of the difference must be explained by a known cause that is PRESENT in this input and that can
+        # move that component in that direction (several causes may combine in one document)
+        DEFS = {4, 5, 6, 7, 8, 9}
+        ALL = set(range(10))
+        causes = []          # (class, components, signs allowed)
+        for c in known_here:
+            causes.append((c, ALL, (-1, 1)))                         # lost / merged / ambiguous definitions
+        if a[2] >= 1 and b[2] == a[2]:
+            causes.append(('image-wrapper-group', set(), ()))        # already folded into a2
+        if empty_def:
+            causes.append(('empty-definition-dropped', ALL, (-1,)))
+        if unresolved_obb(r['skeleton']):
+            causes.append(('unresolved-obb-def', {4, 5, 6}, (-1, 1)))
+        if set(prefix) & URL_BREAKERS:
+            causes.append(('prefix-breaks-url', ALL, (-1,)))
+        if any(n['t'] == 'image' and n.get('svg') for n, _ in treeref.Walk(d).nodes):
+            causes.append(('nested-image-defs', DEFS, (-1, 1)))
+        if feimage_clones(d):
+            causes.append(('feimage-clone-merged', DEFS, (-1,)))
+        used = []
+        ok = True
+        for i, (x, y) in enumerate(zip(a2, b)):
+            if x == y:
+                continue
+            sign = 1 if y > x else -1
+            hit = [c for c, comps, signs in causes if i in comps and sign in signs]
+            if not hit:
+                ok = False
+                break
+            used.append(hit[0])
         cls = None
-        if known_here:
-            cls = known_here[0]            # same root cause: lost / merged definitions
-        elif b == a2:
+        if ok and b == a2:
             cls = 'image-wrapper-group'
-        elif b[:4] == a2[:4] and any(n['t'] == 'image' and n.get('svg') for n, _ in treeref.Walk(d).nodes):
-            # only the definition counts differ and the tree holds a nested SVG image: the outer collections
-            # contain the nested tree's definitions (F41), whose own round trip need not keep their number
-            cls = 'nested-image-defs'
-        elif b[:4] == a2[:4] and all(y <= x for x, y in zip(a2, b)) and feimage_clones(d):
-            # several feImage sub-trees for one target (clones resolved against different boxes); only the first is
-            # written, the definitions used by the others are written but no longer referenced
-            cls = 'feimage-clone-merged'
-        elif b[:4] == a2[:4] and unresolved_obb(r['skeleton']):
-            # a paint server that is still in objectBoundingBox units is written (C04 shared-def-nested-obb, F25); the
-            # re-parse resolves it, per user, into clones
-            cls = 'unresolved-obb-def'
-        elif empty_def and all(y <= x for x, y in zip(a2, b)):
-            cls = 'empty-definition-dropped'
-        elif set(prefix) & URL_BREAKERS and all(y <= x for x, y in zip(a2, b)):
-            cls = 'prefix-breaks-url'
+        elif ok and used:
+            cls = used[0]
         out.append((cls, "the re-parsed tree has another size: groups/paths/images/texts/lg/rg/pattern/clip/mask/filter %s -> %s" % (a, b)))
     return out
 
@@ -443,12 +461,20 @@ def write_num_tie(ctx, binp, ncases):
 
 
 def src_of(doc):
+    """source text of a document, with the text of nested SVG images (base64 data URLs) appended"""
+    import base64
     if doc.startswith('@'):
         try:
-            return open(doc[1:], encoding='utf-8', errors='replace').read()
+            doc = open(doc[1:], encoding='utf-8', errors='replace').read()
         except OSError:
             return ''
-    return doc
+    extra = []
+    for m in re.finditer(r'data:image/svg\+xml;base64,\s*([A-Za-z0-9+/=]+)', doc):
+        try:
+            extra.append(base64.b64decode(m.group(1)).decode('utf-8', 'replace'))
+        except (ValueError, TypeError):
+            pass
+    return doc + ''.join(extra)
 
 
 def run(ctx):
